@@ -18,9 +18,15 @@ pub fn event_json(e: &ServerSessionEvent) -> Value {
             json!({"k":"event","o":"PublishStreamRequested","req":request_id,"app":app_name.as_bytes().to_vec(),
                    "key":stream_key.as_bytes().to_vec(),
                    "mode": match mode { PublishMode::Live => "live", PublishMode::Record => "record", PublishMode::Append => "append" }}),
-        ServerSessionEvent::PlayStreamRequested { request_id, app_name, stream_key, stream_id, .. } =>
+        ServerSessionEvent::PlayStreamRequested { request_id, app_name, stream_key, stream_id, start_at, duration, reset } => {
+            // (the type of start_at is not exported by the crate: read it through its Debug form)
+            let d = format!("{:?}", start_at);
+            let start = if d == "LiveOrRecorded" || d == "LiveOnly" { json!({"k":d,"v":0}) }
+                        else { json!({"k":"At","v":d.trim_start_matches("StartTimeInSeconds(").trim_end_matches(')').parse::<u64>().unwrap_or(u64::MAX)}) };
+            let dur = match duration { Some(d) => json!([d]), None => json!([]) };
             json!({"k":"event","o":"PlayStreamRequested","req":request_id,"app":app_name.as_bytes().to_vec(),
-                   "key":stream_key.as_bytes().to_vec(),"sid":stream_id}),
+                   "key":stream_key.as_bytes().to_vec(),"sid":stream_id,"start":start,"dur":dur,"reset":reset})
+        }
         ServerSessionEvent::PublishStreamFinished { app_name, stream_key } =>
             json!({"k":"event","o":"PublishStreamFinished","app":app_name.as_bytes().to_vec(),"key":stream_key.as_bytes().to_vec()}),
         ServerSessionEvent::PlayStreamFinished { app_name, stream_key } =>
@@ -299,12 +305,22 @@ pub fn random_step(rng: &mut Rng, srv: &mut Srv, padlens: &[usize]) -> Value {
                 1 => (vec![Amf0Value::Boolean(true)], "keynotstring"),
                 2 => (vec![s(&key), Amf0Value::Number(*rng.pick(&[-2.0, -1.0, 0.0]))], "ok"),
                 3 => (vec![s(&key), Amf0Value::Number(-5.0), Amf0Value::Number(-1.0), Amf0Value::Null, s("extra")], "ok"),
-                4 => (vec![s(&key), Amf0Value::Number(10.0), Amf0Value::Number(30.0), Amf0Value::Boolean(true)], "ok"),
+                4 => (vec![s(&key), Amf0Value::Number(*rng.pick(&[10.0, 0.0, 2147483647.0])), Amf0Value::Number(*rng.pick(&[30.0, 0.0, -1.0])), Amf0Value::Boolean(rng.chance(1, 2))], "ok"),
                 5 => (vec![s(&key), s("x"), s("y"), s("z")], "ok"),
                 _ => (vec![s(&key)], "ok"),
             };
+            // the optional arguments after the stream key, as the specification reads them (start, duration, reset)
+            let parg = |i: usize| -> Value {
+                match args.get(i) {
+                    None => json!([]),
+                    Some(Amf0Value::Number(x)) => json!([{"k":"num","v":*x as i64}]),
+                    Some(Amf0Value::Boolean(b)) => json!([{"k":"bool","v":*b}]),
+                    Some(_) => json!([{"k":"other","v":0}]),
+                }
+            };
+            let pargs = json!({"start":parg(1),"dur":parg(2),"reset":parg(3)});
             let b = srv.peer.encode(cmd("play", txn, Amf0Value::Null, args), ts, msid);
-            srv.input(json!({"m":"play","msid":msid,"txn":txn_json(txn),"args":class,"key":key.as_bytes().to_vec()}), &b)
+            srv.input(json!({"m":"play","msid":msid,"txn":txn_json(txn),"args":class,"key":key.as_bytes().to_vec(),"pargs":pargs}), &b)
         }
         38..=45 => {
             let name = if rng.chance(1, 2) { "closeStream" } else { "deleteStream" };
